@@ -167,11 +167,21 @@ class ShapeBaseMapping(AlternativeMapping[ShapeBase]):
         return ShapeBase(self.uid, self.label[2:], self.turn ^ 1, list(reversed(self.ports)))
 
 
+@dataclass(eq=False, frozen=True)
+class Stamp:
+    """a frozen dataclass with references (no reference leads back to it: a frozen object cannot be part of a cycle)"""
+    uid: int = 0
+    where: Optional[Vec] = None
+    marks: List[Port] = field(default_factory=list)
+    text: str = ""
+
+
 @dataclass(eq=False)
 class Sheet:
     """several shapes (instances of the alternatively mapped class and of its normally mapped subclass) in one graph"""
     uid: int = 0
     shapes: List[ShapeBase] = field(default_factory=list)
+    stamp: Optional[Stamp] = None
 
 
 @dataclass(eq=False)
